@@ -7,6 +7,8 @@ from .. import cprgen
 from .C06 import WINDOW_HI
 
 LEVEL = "exploration"
+TECHNIQUE = 'runtime monitoring: reference CPR encoder as oracle + metamorphic relation between two references inside the half-zone box'
+LEVEL_TEXT = 'Exploration: both parities x airborne/surface x every NL band, references uniform in the box and at 0.999 of its edges/corners, across the equator, Greenwich and the antimeridian.'
 LEVEL_RULE = (
     "adsb.position_with_ref / airborne_position_with_ref / surface_position_with_ref called on single frames built by the "
     "reference CPR encoder (both parities, airborne Nb=17 and surface Nb=19), with two references drawn inside the half-zone "
